@@ -146,7 +146,24 @@ def make_env(d, cfg, tracer=None, seed=None):
     kw = {}
     if tracer is not None:
         kw["middleware"] = tracer.middleware_class()
-    return JobShopLabEnv(config=cfg, compiler=jsl.make_compiler(d, cfg), seed=seed, **kw)
+    comp = jsl.make_compiler(d, cfg)
+    orig = comp.compile
+
+    def compile_and_note(*a, **k):
+        # the normalisation constants of the reward are functions of the instance AS COMPILED (before any
+        # stochastic time is re-sampled): noted here for the C19 oracle
+        res = orig(*a, **k)
+        try:
+            from jobshoplab.utils.utils import calculate_lower_bound, get_max_allowed_time
+            inst = res[0]
+            comp._verif_last = {"lb": calculate_lower_bound(inst), "tmax": get_max_allowed_time(inst),
+                                "nops": sum(len(j.operations) for j in inst.instance.specification),
+                                "njobs": len(inst.instance.specification)}
+        except Exception:  # noqa
+            comp._verif_last = None
+        return res
+    comp.compile = compile_and_note
+    return JobShopLabEnv(config=cfg, compiler=comp, seed=seed, **kw)
 
 
 def replay(records, driver, stats=None):
